@@ -9,6 +9,7 @@ import SugarModel.Known
 import SugarModel.Generated.CommandTable
 import SugarModel.Driver.AclLines
 import SugarModel.Driver.PersistLines
+import SugarModel.Driver.SchedLines
 open Sugar Sugar.Driver
 
 def showVal (v : Val) : String := reprStr v
@@ -252,6 +253,9 @@ partial def loop (h : IO.FS.Stream) (out : IO.FS.Stream) : IO Unit := do
     loop h out
   else if line.startsWith "A " then
     out.putStrLn (aVerdict ((line.splitOn " ").filter (· ≠ "")))
+    loop h out
+  else if line.startsWith "I " then
+    out.putStrLn (verdictI line)
     loop h out
   else if line.startsWith "X " then
     out.putStrLn (verdictX line)
